@@ -9,7 +9,9 @@ from simworld import Tape
 CASE_WALL_S = 30
 
 ID = "C12"
-TIERS = {"quick": dict(examples=12000), "thorough": dict(examples=300000)}
+TIERS = {"quick": dict(examples=13500, parts=dict(main=12000, sessions=1500)),
+         "thorough": dict(examples=340000, parts=dict(main=300000, sessions=40000))}
+PARTS = ["main", "sessions"]
 RULE = ("A real DilatedConnectionProtocol pair (built by Connector.build_protocol, real _Framer/_Record/Noise) "
         "joined by byte pipes whose chunking is drawn from the tape (1..5 bytes, around the 48-byte handshake, "
         "around 65535, everything). Records of all types with 32-bit boundary ids/seqnums, payload lengths "
@@ -22,7 +24,10 @@ RULE = ("A real DilatedConnectionProtocol pair (built by Connector.build_protoco
         "nothing at or after the first affected record is surfaced, earlier records are unaffected, and once a "
         "complete bad element was received the victim's transport was told to close. Non-trivial = payload "
         "spanning >=2 Noise packets, or a frame split over >=2 chunks, or a hostile element. Distinct = "
-        "(features, record-type/size/chunk trace).")
+        "(features, record-type/size/chunk trace). Part 'sessions': one or two independently keyed sessions with up "
+        "to four connection pairs alive in one process, at most one selected per session, the others left as "
+        "candidates or lost after the Leader's KCM and first records were parked on the Follower end; oracle: a "
+        "manager is handed exactly what the peer of its selected connection sent, nothing from any other connection.")
 ASSUMPTIONS = ["the Noise implementation in use (noiseprotocol or the /verif shim, self-tested in setup) is a correct AEAD",
                "byte pipes deliver in order; loss/replacement of connections is C10's subject"]
 
@@ -80,8 +85,167 @@ def cases(draw, tier="quick"):
     return c
 
 
-def strategy(tier):
+@st.composite
+def session_cases(draw, tier="quick"):
+    """several L2 connections in one process: one or two independently keyed dilation sessions, each with up to
+    three connection pairs of which at most one is selected; the others stay candidates for ever or are lost
+    after the Leader's KCM and first records were received (parked) on the Follower end"""
+    c = {"part": "sessions"}
+    c["nsess"] = draw(st.integers(1, 2))
+    pairs = []
+    chosen = set()
+    for k in range(draw(st.integers(1, 4))):
+        sess = draw(st.integers(0, c["nsess"] - 1))
+        fate = draw(st.sampled_from(["select", "drop", "drop", "idle"]))
+        if fate == "select":
+            if sess in chosen:
+                fate = "drop"
+            chosen.add(sess)
+        pairs.append(dict(sess=sess, fate=fate, early=draw(st.integers(0, 3)), late=draw(st.integers(0, 2)),
+                          big=draw(st.integers(0, 9)) == 0))
+    c["pairs"] = pairs
+    c["sequential"] = draw(st.booleans())     # finish one pair before the next one starts
+    n = draw(st.integers(0, 150))
+    c["tape"] = draw(st.binary(min_size=n, max_size=n))
+    return c
+
+
+def strategy(tier, part="main"):
+    if part == "sessions":
+        return session_cases(tier)
     return cases(tier)
+
+
+def run_sessions(c):
+    """nothing from a connection that was never selected reaches a manager; a selected connection hands over
+    exactly what its own peer sent, however many other connections (of this or of another session) exist"""
+    from wormhole._dilation import connection as C
+    from wormhole._dilation.roles import LEADER, FOLLOWER
+    from twisted.python.failure import Failure
+    from twisted.internet.error import ConnectionDone
+    res = CaseResult()
+    tape = Tape(c["tape"])
+    keys = [bytes([0x41 + s]) * 32 for s in range(c["nsess"])]
+    fmgr = [ManagerStub() for _ in keys]              # one Follower-side manager per session
+    pairs = []
+    exc = []
+    for k, pc in enumerate(c["pairs"]):
+        key = keys[pc["sess"]]
+        lcs, lp, lt = make_end(LEADER, key)
+        fcs, fp, ft = make_end(FOLLOWER, key)
+        pairs.append(dict(k=k, pc=pc, L=dict(cs=lcs, p=lp, t=lt, m=ManagerStub()), F=dict(cs=fcs, p=fp, t=ft),
+                          started=False, lsel=False, resolved=None, sent=[], early=pc["early"], late=pc["late"]))
+
+    def rec(pr):
+        n = 70000 if (pr["pc"]["big"] and not pr["sent"]) else 5
+        r = C.Data(len(pr["sent"]), 100 * pr["k"] + 1, bytes([pr["k"] * 16 + len(pr["sent"])]) * n)
+        return r
+
+    def push(src, dst, n):
+        buf = src["t"].out
+        n = len(buf) if n is None else max(1, min(n, len(buf)))
+        data = bytes(buf[:n])
+        del buf[:n]
+        if dst["t"].lose:
+            return
+        try:
+            dst["p"].dataReceived(data)
+        except Exception as ex:
+            exc.append(ex)
+            dst["t"].lose += 1
+
+    steps = 0
+    parked_then_gone = 0
+    for _ in range(3000):
+        acts = []
+        for pr in pairs:
+            if not pr["started"]:
+                if not c["sequential"] or all(q["resolved"] is not None or q["pc"]["fate"] == "idle" and q["lsel"] and not q["L"]["t"].out
+                                               for q in pairs[:pr["k"]]):
+                    acts.append(("start", pr))
+                if c["sequential"]:
+                    break
+                continue
+            L, F = pr["L"], pr["F"]
+            if L["t"].out and not F["t"].lose and pr["resolved"] != "drop":
+                acts.append(("L>F", pr))
+            if F["t"].out and not L["t"].lose:
+                acts.append(("F>L", pr))
+            if L["cs"].candidates and not pr["lsel"]:
+                acts.append(("lselect", pr))
+            if pr["lsel"] and pr["early"]:
+                acts.append(("early", pr))
+            if F["cs"].candidates and pr["resolved"] is None and pr["pc"]["fate"] != "idle":
+                acts.append(("resolve", pr))
+            if pr["resolved"] == "select" and pr["late"]:
+                acts.append(("late", pr))
+        if not acts:
+            break
+        steps += 1
+        a, pr = acts[tape.below(len(acts))]
+        L, F = pr["L"], pr["F"]
+        if a == "start":
+            pr["started"] = True
+            for e in (L, F):
+                e["t"].out = bytearray()
+                e["p"].makeConnection(e["t"])
+        elif a in ("L>F", "F>L"):
+            n = CHUNKS[tape.below(len(CHUNKS))] if not tape.exhausted() else None
+            push(L, F, n) if a == "L>F" else push(F, L, n)
+        elif a == "lselect":
+            pr["lsel"] = True
+            lp = L["cs"].candidates[0]
+            lp.select(L["m"])
+            lp.send_record(C.KCM())
+        elif a in ("early", "late"):
+            pr[a] -= 1
+            r = rec(pr)
+            L["p"].send_record(r)
+            pr["sent"].append(r)
+        elif a == "resolve":
+            if pr["pc"]["fate"] == "select":
+                pr["resolved"] = "select"
+                F["cs"].candidates[0].select(fmgr[pr["pc"]["sess"]])
+            else:
+                pr["resolved"] = "drop"
+                if getattr(F["p"], "_inbound_record_queue", None):
+                    parked_then_gone += 1
+                F["t"].lose += 1
+                try:
+                    F["p"].connectionLost(Failure(ConnectionDone()))
+                except Exception as ex:
+                    exc.append(ex)
+    # ---- oracle
+    for s, m in enumerate(fmgr):
+        sel = [pr for pr in pairs if pr["pc"]["sess"] == s and pr["resolved"] == "select"]
+        exp = sel[0]["sent"] if sel else []
+        got = m.records
+        if got != exp[:len(got)]:
+            res.violate("reject", "session %d: the Follower's manager was handed %s; the selected connection's peer sent %s "
+                        "(pairs: %s)" % (s, _brief(got), _brief(exp), [(q["pc"]["sess"], q["resolved"] or q["pc"]["fate"], len(q["sent"])) for q in pairs]),
+                        input_class="records-of-an-unselected-connection-surfaced")
+        elif sel and not sel[0]["F"]["t"].lose and not sel[0]["L"]["t"].out and len(got) != len(exp):
+            res.violate("roundtrip", "session %d: the selected connection surfaced %d of %d records" % (s, len(got), len(exp)),
+                        input_class="records-missing:sessions")
+    for pr in pairs:
+        if pr["L"]["m"].records:
+            res.violate("reject", "a Leader end was handed records nobody sent", input_class="records-of-an-unselected-connection-surfaced")
+    for ex in exc:
+        if not isinstance(ex, C.Disconnect):
+            res.violate("roundtrip", "L2 connection raised %r with several connections in the process" % ex,
+                        input_class="dataReceived-raises:%s:sessions" % type(ex).__name__, exc=type(ex).__name__)
+            break
+    nsel = sum(1 for pr in pairs if pr["resolved"] == "select")
+    unsel_with_records = sum(1 for pr in pairs if pr["resolved"] != "select" and pr["sent"])
+    res.nontrivial = bool(nsel and unsel_with_records)
+    res.features = dict(part="sessions", nsess=c["nsess"], npairs=len(pairs), selected=nsel,
+                        unselected_with_records=common.bucket(unsel_with_records, [0, 1, 2]),
+                        parked_then_lost=common.bucket(parked_then_gone, [0, 1]), seq=c["sequential"])
+    res.trace = ";".join("%d%s%d%d" % (pr["pc"]["sess"], (pr["resolved"] or "-")[0], len(pr["sent"]), pr["pc"]["big"]) for pr in pairs) + "|%d" % steps
+    res.steps = steps
+    res.sample = dict(pairs=[dict(sess=pr["pc"]["sess"], fate=pr["pc"]["fate"], resolved=pr["resolved"], sent=len(pr["sent"])) for pr in pairs],
+                      surfaced=[len(m.records) for m in fmgr])
+    return res
 
 
 def mkrec(r):
@@ -189,6 +353,8 @@ CHUNKS = [1, 1, 1, 2, 3, 4, 5, 44, 45, 46, 47, 48, 49, 96, 1000, 65534, 65535, 6
 
 
 def run_case(c):
+    if c.get("part") == "sessions":
+        return run_sessions(c)
     from wormhole._dilation import connection as C
     from wormhole._dilation.roles import LEADER, FOLLOWER
     res = CaseResult()
